@@ -478,7 +478,10 @@ Section Monitors.
   Definition mon_C06 : bool :=
     match first_fail es false with
     | Some (r, false) =>
+        (* the run waits for the in-flight evaluations unless another criterion (a result that meets
+           the target, which returns at once - C04) ends it first *)
         (has (fun e => match e with ECloseCmd | ECloseReports | EHang => true | _ => false end) ||
+         match ro_target o with Some _ => true | None => false end ||
          N.eqb (live_at_ready es 0) 0) &&
         no_start_after (fun e => match e with EReturned _ r' => is_fail r' | _ => false end) es &&
         match final with
